@@ -509,7 +509,8 @@ def oracle(jobs, field):
 
 
 # which oracle findings are the failing inputs of which broken lemma / theorem (by name prefix)
-EXPLAINS = {"body_W": ["equiv-wrapper", "refparam", "bin:EQ", "bin:NEQ"], "sstF_symm": ["equiv-wrapper", "refparam", "bin:EQ", "bin:NEQ"],
+EXPLAINS = {"body_W": ["equiv-wrapper", "refparam", "bin:EQ", "bin:NEQ"], "sst": ["equiv-wrapper", "refparam", "bin:EQ", "bin:NEQ"],
+            "ae": ["equiv-wrapper", "refparam", "bin:EQ", "bin:NEQ"], "is_ref": ["equiv-wrapper", "refparam"], "is_const": ["equiv-wrapper", "refparam"],
             "isSameScalarType_symm": ["equiv-wrapper", "refparam", "bin:EQ", "bin:NEQ"],
             "areEquivalent": ["equiv-wrapper", "refparam", "bin:EQ", "bin:NEQ"], "areEqCompatible": ["bin:EQ", "bin:NEQ"],
             "typeBin_EQ": ["bin:EQ"], "typeBin_NEQ": ["bin:NEQ"], "typeBin": ["bin:"], "iif_core": ["inlineif"], "inlineIf": ["inlineif"],
@@ -593,6 +594,23 @@ def run(ctx):
                     jb["impl_ans"] = impl_answer(jb, wire)
             except Unmodelled:
                 pass
+    # ---- a sample of the same questions under ASan+UBSan: same answers, no sanitizer report
+    if not os.environ.get("C14_NO_ASAN"):
+        sample = [dict(cls=j["cls"], line=j["line"]) for j in ctx.rng.sample(jobs, min(len(jobs), 3000 if not ctx.thorough else 20000))]
+        ref = {j["line"]: j["impl"] for j in jobs}
+        abuild = core.build_repo("asan")
+        dta, aerr = run_harness(ctx, abuild, sample, decls)
+        if aerr is not None:
+            ctx.finding("impl:sanitizer", "the harness died under ASan/UBSan (rc=%s)" % aerr["rc"], dict(aerr, declarations=decls))
+        else:
+            diff = [j for j in sample if j["impl"] != ref[j["line"]]]
+            cov["asan_sample"] = {"ops": len(sample), "different_answers": len(diff), "seconds": round(dta, 1)}
+            if diff:
+                ctx.finding("impl:sanitizer-build-differs", "ASan build answers differently: %s" % diff[0]["line"],
+                            {"op": diff[0]["line"], "asan": diff[0]["impl"], "plain": ref[diff[0]["line"]], "declarations": decls})
+    if have_model:
+        rc, out, err, _ = core.run_exe(core.lean_exe("drv_c14"), [], stdin_text="exceptions\n")
+        cov["exceptions"] = out.strip().split()
     # ---- the property on the implementation's verdicts
     found = oracle(jobs, "impl_ans")
     model_found = oracle(jobs, "model") if have_model else {}
